@@ -44,7 +44,7 @@ Definition step (s : st) (c : char) : st :=
   | MTop => step_top s c
   | MTok acc =>
       if is_ws c then emit (L (rev acc)) s
-      else if is_brk c then step_top (emit (L (rev acc)) s) c
+      else if is_brk c || N.eqb c cDQ || N.eqb c cBAR then step_top (emit (L (rev acc)) s) c     (* un-read: c starts the next lexeme *)
       else mkst (out s) (stack s) (MTok (c :: acc))
   | MLit q acc =>
       if N.eqb c q then
@@ -55,7 +55,7 @@ Definition step (s : st) (c : char) : st :=
       if N.eqb c cDQ then mkst (out s) (stack s) (MLit cDQ (c :: acc))
       else step_top (emit (L (rev acc)) s) c
   | MCom acc =>
-      if N.eqb c cLF then emit (L (rev (c :: acc))) s
+      if N.eqb c cLF || N.eqb c cCR then emit (L (rev (c :: acc))) s       (* a comment ends at the first line-breaking character *)
       else mkst (out s) (stack s) (MCom (c :: acc))
   end.
 
